@@ -692,3 +692,105 @@ func TestC13Late(t *testing.T) {
 	rec := evid.New("C13/late")
 	pbt.Run(t, "C13", rec, genC13Late, checkC13Late)
 }
+
+// ---- C13: a write timeout of zero (or below) ----
+//
+// An application that passes 0 as the write timeout gets writes that fail at
+// once (the deadline is "now"): every connection ends on its first outbound
+// message. That is a way for a connection to end like any other: the socket is
+// closed, the serving call returns, nothing stays blocked - also when the peer
+// has stopped reading.
+
+type C13ZeroCase struct {
+	Role    string `json:"role"`
+	Buf     int    `json:"buf"`
+	Timeout int64  `json:"timeout_ms"` // 0 or negative
+	Stalled bool   `json:"stalled"`    // the peer does not read
+}
+
+func genC13Zero(t *rapid.T) *C13ZeroCase {
+	return &C13ZeroCase{Role: rapid.SampledFrom([]string{"acceptor", "initiator"}).Draw(t, "role"), Buf: rapid.SampledFrom([]int{0, 1, 10}).Draw(t, "buf"),
+		Timeout: rapid.SampledFrom([]int64{0, 0, -1, -1000}).Draw(t, "timeout"), Stalled: rapid.Bool().Draw(t, "stalled")}
+}
+
+func checkC13Zero(c *C13ZeroCase, rec *evid.Rec) (vs []pbt.Violation) {
+	done := pbt.Watch("C13", "TestC13Zero", c)
+	defer done()
+	var closed, returned bool
+	leak, trouble := rig.Bubble(outerT, func() {
+		store := memory.NewStorage()
+		cfg := rig.Cfg{Role: c.Role, HBMin: 1, HBMax: 60, HBInt: 30, Methods: []string{"0"}, Approve: "all", CloseTimeoutMs: 100, Buf: c.Buf,
+			Sender: "LIB", Target: "PEER", User: "alice", Pass: "secret"}
+		wd := time.Duration(c.Timeout) * time.Millisecond
+		var conn *netsim.Conn
+		var ar *rig.AcceptorRig
+		var ir *rig.InitiatorRig
+		if c.Role == "acceptor" {
+			ar = rig.StartAcceptor(c.Buf, wd, func(h simplefixgo.AcceptorHandler) {
+				if _, err := rig.AcceptorSession(cfg, h, store, store); err != nil {
+					panic(err)
+				}
+			})
+			conn = netsim.NewConn("c")
+			conn.Stall(c.Stalled)
+			ar.L.Connect(conn)
+		} else {
+			ir = rig.NewInitiatorRig(c.Buf, wd)
+			conn = ir.C
+			conn.Stall(c.Stalled)
+			ir.Serve()
+			// (the initiator's own Logon is the first write)
+			go func() { _, _ = rig.InitiatorSession(cfg, ir.H, store, store) }()
+		}
+		synctest.Wait()
+		conn.Feed((&rig.InMsg{Type: rig.TLogon, Seq: "1", Fields: []rig.Tok{rig.F(rig.TagEncryptMethod, "0"), rig.F(rig.TagHeartBtInt, "30"),
+			rig.F(rig.TagUsername, "alice"), rig.F(rig.TagPassword, "secret")}}).Bytes())
+		synctest.Wait()
+		time.Sleep(rig.Settle(30))
+		synctest.Wait()
+		closed, _ = conn.IsClosed()
+		if ir != nil {
+			returned = ir.Returned()
+		} else {
+			returned = true // the acceptor goes on listening: only the connection ends
+		}
+		conn.Stall(false)
+		conn.PeerClose()
+		synctest.Wait()
+		if ar != nil {
+			ar.A.Close()
+		} else {
+			ir.I.Close()
+			ir.H.Stop()
+		}
+		time.Sleep(rig.Settle(30))
+	})
+	if trouble != "" {
+		return []pbt.Violation{pbt.V("harness", "%s", trouble)}
+	}
+	desc := fmt.Sprintf("%s, buffer %d, write timeout %d ms, peer reads: %v", c.Role, c.Buf, c.Timeout, !c.Stalled)
+	if !closed {
+		vs = append(vs, pbt.V("zero-timeout:socket-not-closed", "%s: the first outbound message cannot be written within its (zero) timeout, yet the connection is still open after the settling time", desc))
+	}
+	if !returned && len(vs) == 0 {
+		vs = append(vs, pbt.V("zero-timeout:serve-not-returned", "%s: Initiator.Serve has not returned", desc))
+	}
+	if leak != "" && len(vs) == 0 {
+		vs = append(vs, pbt.V("zero-timeout:goroutines-left", "%s: goroutines remain blocked at the end:\n%s", desc, leak))
+	}
+	rec.Case(evid.FPs(fmt.Sprint(c.Role, c.Buf, c.Timeout, c.Stalled)), true)
+	rec.Hist("zero-write-timeout")
+	if c.Stalled {
+		rec.Hist("zero-write-timeout:peer-not-reading")
+	}
+	if rec.WantSample() {
+		rec.Sample(map[string]any{"engine": "write timeout of zero", "role": c.Role, "buffer": c.Buf, "timeout_ms": c.Timeout, "peer_reads": !c.Stalled})
+	}
+	return vs
+}
+
+func TestC13Zero(t *testing.T) {
+	outerT = t
+	rec := evid.New("C13/zero")
+	pbt.Run(t, "C13", rec, genC13Zero, checkC13Zero)
+}
